@@ -28,17 +28,6 @@ impl SeqGroup {
     pub open spec fn top(&self) -> int { if self.a().hi() >= self.b().hi() { self.a().hi() } else { self.b().hi() } }
 }
 
-impl SimpleSequence {
-    pub closed spec fn last(&self) -> int { self.last_id as int }
-    pub closed spec fn cache(&self) -> int { self.cache_size as int }
-    pub closed spec fn batch(&self) -> int { self.batch_size as int }
-    /// high-water mark: every id handed out so far is <= end()
-    pub open spec fn end(&self) -> int { self.last() + self.cache() }
-    pub open spec fn wf(&self) -> bool { self.batch() > 0 && self.end() <= u64::MAX }
-    /// machine-integer room for one more batch (explicit overflow precondition)
-    pub open spec fn room(&self) -> bool { self.end() + self.batch() <= u64::MAX }
-}
-
 impl CacheSequence {
     pub closed spec fn avail(&self) -> Set<int> { ids(self.start_id as int, self.start_id + self.cache_size) }
     pub closed spec fn wf(&self) -> bool { self.start_id + self.cache_size <= u64::MAX }
